@@ -76,6 +76,14 @@ def mutate(draw, d):
         opts += ["arg-change", "arg-add", "env", "deps-style", "deps-path"]
         if len(d["args"]) >= 3:
             opts += ["arg-boundary", "arg-boundary"]
+        # a boundary between ADJACENT LISTS of the definition (like moving a node between the input and the
+        # output list): the trailing arguments become the first environment entry / the first deps path
+        if len(d["args"]) >= 3 and d["args"][-2] and d["args"][-2] not in (d.get("env") or {}):
+            opts += ["move-args-to-env"]
+        if len(d["args"]) >= 2 and d["args"][-1] and d.get("depsfiles"):
+            opts += ["move-arg-to-deps"]
+        if d.get("env") and d.get("depsfiles") and list(d["env"].items())[-1][1]:
+            opts += ["move-env-to-deps"]
     o = draw(st.sampled_from(opts))
     used = set(d["inputs"]) | set(d["outputs"])
     free = [n for n in ["n1", "n2", "n3", "d/n4", "n5", "<v1>", "<v2>", "n6"] if n not in used]
@@ -126,6 +134,18 @@ def mutate(draw, d):
         else:
             m["args"] = d["args"] + ["w"]
             o = "arg-add"
+    elif o == "move-args-to-env":
+        m["args"] = d["args"][:-2]
+        env = {d["args"][-2]: d["args"][-1]}
+        env.update(d.get("env") or {})
+        m["env"] = env
+    elif o == "move-arg-to-deps":
+        m["args"] = d["args"][:-1]
+        m["depsfiles"] = [d["args"][-1]] + d["depsfiles"]
+    elif o == "move-env-to-deps":
+        items = list(d["env"].items())
+        m["env"] = dict(items[:-1])
+        m["depsfiles"] = [items[-1][0], items[-1][1]] + d["depsfiles"]
     elif o == "env":
         env = dict(d.get("env") or {})
         if env and draw(st.booleans()):
@@ -238,7 +258,8 @@ def run_case(case, ctx, verbose=False):
                 sb = signature_of(ws, case["b"])
                 what = case["what"]
                 cls = ["pair", "pair:" + what]
-                nt = what in ("arg-boundary", "move-in-to-out", "move-out-to-in")
+                nt = what in ("arg-boundary", "move-in-to-out", "move-out-to-in", "move-args-to-env", "move-arg-to-deps",
+                              "move-env-to-deps")
                 if what == "description":
                     if sa != sb:
                         return Outcome("changing only the description changed the signature (%d -> %d)" % (sa, sb),
